@@ -1,5 +1,6 @@
 """C03 - validation conformance: generated tables vs Message.validate vs the hand-written spec."""
 import os
+import sys
 from concurrent.futures import ProcessPoolExecutor
 
 from harness import core, oracles
@@ -146,7 +147,69 @@ def chunks(lst, n):
     return [lst[i:i + k] for i in range(0, len(lst), k)]
 
 
+_DUMP = r"""
+import json, sys, importlib, logging
+logging.disable(logging.CRITICAL)
+mods = sys.argv[1:]
+for m in mods[:-1]:
+    importlib.import_module(m)            # other versions loaded first (or none)
+c = importlib.import_module(mods[-1])
+def names(d):
+    return sorted(getattr(k, "name", str(k)) for k in d)
+out = {"VALID_MESSAGE_TYPES": {getattr(k, "name", str(k)): names(v) for k, v in c.VALID_MESSAGE_TYPES.items()},
+       "VALID_PAYLOADS": {getattr(k, "name", str(k)): names(v) for k, v in c.VALID_PAYLOADS.items()},
+       "VALID_TYPES": {getattr(k, "name", str(k)): names(v) for k, v in c.VALID_TYPES.items()},
+       "VALID_SETREQ": names(c.VALID_SETREQ), "VALID_INTERNAL": names(getattr(c, "VALID_INTERNAL", {})),
+       "VALID_PRESENTATION": names(getattr(c, "VALID_PRESENTATION", {})), "VALID_STREAM": names(getattr(c, "VALID_STREAM", {})),
+       "Presentation": names(c.Presentation), "SetReq": names(c.SetReq), "Internal": names(c.Internal)}
+print(json.dumps(out, sort_keys=True))
+"""
+
+
+def tables_do_not_depend_on_loaded_versions(res):
+    """A validation verdict is a function of (version, message): the tables of a version must be the same whether
+    that version's constants are the only ones loaded or every other version was loaded before / after (a gateway
+    validates node values against OLDER versions' tables as a matter of course).  One fresh interpreter per
+    configuration."""
+    import json
+    import subprocess
+    mods = ["mysensors.const_14", "mysensors.const_15", "mysensors.const_20", "mysensors.const_21", "mysensors.const_22"]
+    env = dict(os.environ, PYTHONPATH=str(core.REPO))
+
+    def dump(order):
+        p = subprocess.run([sys.executable, "-c", _DUMP] + order, env=env, stdout=subprocess.PIPE, stderr=subprocess.PIPE,
+                           text=True, timeout=120)
+        return json.loads(p.stdout) if p.returncode == 0 and p.stdout.strip() else {"error": p.stderr[-300:]}
+    for i, m in enumerate(mods):
+        alone = dump([m])
+        for label, order in (("after every other version was loaded", [x for x in mods if x != m] + [m]),
+                             ("before the newer versions were loaded", None)):
+            res.evaluations += 1
+            if order is None:
+                # load m, then the newer ones, then look at m again
+                code_order = [m] + mods[i + 1:] + [m]
+                other = dump(code_order)
+            else:
+                other = dump(order)
+            res.count("tables:isolation-check")
+            if other != alone:
+                diff = [k for k in sorted(set(alone) | set(other)) if alone.get(k) != other.get(k)]
+                detail = ""
+                for k in diff[:2]:
+                    a, b = alone.get(k), other.get(k)
+                    if isinstance(a, dict) and isinstance(b, dict):
+                        kk = [x for x in sorted(set(a) | set(b)) if a.get(x) != b.get(x)][:2]
+                        detail += f" {k}[{kk}]: {[a.get(x) for x in kk]} vs {[b.get(x) for x in kk]};"
+                    else:
+                        extra = sorted(set(b or []) - set(a or []))[:6] if isinstance(a, list) and isinstance(b, list) else b
+                        detail += f" {k}: extra {extra};"
+                res.violate("tables-depend-on-loaded-versions",
+                            f"{m}: tables differ when loaded alone vs {label}:{detail[:500]}",
+                            {"kind": "isolation", "module": m, "order": order or code_order, "differs": diff})
+
+
 def run(ctx, res):
+    tables_do_not_depend_on_loaded_versions(res)
     cases = corpus_cells(ctx) + grid(ctx) + child_cases(ctx)
     jobs = min(16, os.cpu_count() or 4)
     with ProcessPoolExecutor(jobs) as ex:
